@@ -117,4 +117,105 @@ theorem sourceApi_cases {Loc : Type} (apiPath : SourceFilePath → String) (env 
         | none => left; simp [Outcome.accepted, hf]
         | some fp => right; simp [hf]
 
+/-! ### Candidate loop of `load_symbol_map` -/
+
+theorem candMatch_eq_some_iff {DL : Type} (id : String) (c : CandResult DL) (l : Loaded DL) :
+    candMatch id c = some l ↔ c = .ok l ∧ l.id = id := by
+  cases c with
+  | err => simp [candMatch]
+  | ok l' =>
+    unfold candMatch
+    by_cases h : l'.id = id
+    · simp only [h, BEq.rfl, if_true, Option.some.injEq, CandResult.ok.injEq]
+      constructor
+      · intro e; subst e; exact ⟨rfl, h⟩
+      · intro e; exact e.1
+    · have hb : (l'.id == id) = false := by simpa using h
+      simp only [hb, Bool.false_eq_true, if_false, CandResult.ok.injEq]
+      constructor
+      · intro e; cases e
+      · rintro ⟨e, hid⟩; subst e; exact absurd hid h
+
+/-- A candidate does not match iff it failed to load or carries another debug id. -/
+theorem candMatch_eq_none_iff {DL : Type} (id : String) (c : CandResult DL) :
+    candMatch id c = none ↔ c = .err ∨ ∃ l, c = .ok l ∧ l.id ≠ id := by
+  cases c with
+  | err => simp [candMatch]
+  | ok l' =>
+    unfold candMatch
+    by_cases h : l'.id = id
+    · simp [h]
+    · have hb : (l'.id == id) = false := by simpa using h
+      simp [hb, h]
+
+/-- `envOf` when the symbol map is found. -/
+theorem envOf_some {DL Loc : Type} (m : Manager DL Loc) (id : String) (l : Loaded DL) (o : Nat)
+    (h : loadSymbolMap m id = some l) :
+    envOf m (some id) o = ⟨l.lookup o, m.locationFor l.dfl, m.fileLen⟩ := by
+  unfold envOf; simp [h]
+
+theorem envOf_none {DL Loc : Type} (m : Manager DL Loc) (id : String) (o : Nat)
+    (h : loadSymbolMap m id = none) :
+    envOf m (some id) o = ⟨.noSymbols, fun _ => none, m.fileLen⟩ := by
+  unfold envOf; simp [h]
+
+/-! ### The external-file loop -/
+
+/-- more fuel does not change a finished resolution -/
+theorem resolveExternal_mono {X C : Type} (im : InnerMap X C) (n : Nat) (r : Option (FLR X))
+    (v : Option (List Frame)) (h : resolveExternal im n r = some v) :
+    resolveExternal im (n + 1) r = some v := by
+  induction n generalizing r with
+  | zero =>
+    cases r with
+    | none => simpa [resolveExternal] using h
+    | some f =>
+      cases f with
+      | available fs => simpa [resolveExternal] using h
+      | external x => simp [resolveExternal] at h
+  | succ n ih =>
+    cases r with
+    | none => simpa [resolveExternal] using h
+    | some f =>
+      cases f with
+      | available fs => simpa [resolveExternal] using h
+      | external x =>
+        simp only [resolveExternal] at h ⊢
+        exact ih _ h
+
+/-! ### The offset string -/
+
+theorem hexDigitsU32_some {ds : List Char} {n : Nat} (h : hexDigitsU32 ds = some n) :
+    n < 4294967296 ∧ ds ≠ [] := by
+  cases ds with
+  | nil => simp [hexDigitsU32] at h
+  | cons c cs =>
+    simp only [hexDigitsU32] at h
+    cases hm : List.mapM hexDigitVal (c :: cs) with
+    | none => rw [hm] at h; simp at h
+    | some vs =>
+      rw [hm] at h
+      simp only at h
+      by_cases hlt : List.foldl (fun a d => a * 16 + d) 0 vs < 4294967296
+      · rw [if_pos hlt] at h
+        cases h
+        exact ⟨hlt, by simp⟩
+      · rw [if_neg hlt] at h
+        cases h
+
+theorem fromStrRadix16U32_some {s : List Char} {n : Nat} (h : fromStrRadix16U32 s = some n) :
+    n < 4294967296 ∧ s ≠ [] := by
+  unfold fromStrRadix16U32 at h
+  split at h
+  · exact ⟨(hexDigitsU32_some h).1, by simp⟩
+  · exact hexDigitsU32_some h
+
+theorem parseModuleOffset_some {cs : List Char} {n : Nat} (h : parseModuleOffset cs = some n) :
+    n < 4294967296 ∧ ∃ rest, cs = '0' :: 'x' :: rest ∧ rest ≠ [] := by
+  unfold parseModuleOffset at h
+  split at h
+  · rename_i rest
+    exact ⟨(fromStrRadix16U32_some h).1, rest, rfl, (fromStrRadix16U32_some h).2⟩
+  · cases h
+
 end SourceApi
